@@ -722,3 +722,18 @@ def fmt(e, depth=6):
     if k == "phi":
         return "phi(%s)" % " | ".join(fmt(x, depth - 1) for x in e[1])
     return str(e[:2])
+
+
+def is_param_named(e, name):
+    """a (by-name) reference to a parameter: a real MIR argument, or an upvar of a coroutine/closure body."""
+    if e[0] == "param" and e[2] == name:
+        return True
+    if e[0] == "field" and e[2] == name and e[1][0] == "param" and e[1][1] == 1:
+        return True
+    if e[0] == "field" and e[2] == name and e[1][0] == "deref" and e[1][1][0] == "param" and e[1][1][1] == 1:
+        return True
+    return False
+
+
+def mentions_param_named(e, name):
+    return contains(e, lambda x: is_param_named(x, name))
